@@ -6,6 +6,9 @@ CONSTANTS
     Design = "direct"
     Policy = "trust"
     RenameAt = "closed"
+    Recover = FALSE
+    Forwards = TRUE
+    MaxDrop = 0
     LossyNames = FALSE
     Memo = FALSE
     MaxClear = 0
